@@ -2570,7 +2570,24 @@ fn run_validate(case: &Value) -> Value {
             format!("{} @ {}", panic_message(&p), LAST_PANIC_LOCATION.with(|s| s.borrow().clone())),
         ),
     };
-    json!({"status": "ok", "model_input": model_in, "obs": obs, "detail": detail})
+    // the same store through the real command line: `cargo vet check` (`--locked` for a locked case) on a scratch
+    // directory, i.e. through Store::acquire / go_online exactly as the commands call them
+    let real_check = catch_unwind(AssertUnwindSafe(|| {
+        let texts = Store::mock(config.clone(), audits.clone(), imports.clone()).mock_commit();
+        let files = [
+            texts["config.toml"].clone(),
+            texts["audits.toml"].clone(),
+            texts["imports.lock"].clone(),
+        ];
+        let args: Vec<&str> = if locked {
+            vec!["check", "--locked", "--output-format=json"]
+        } else {
+            vec!["check", "--output-format=json"]
+        };
+        probe(&metadata, &files, &args, case)["outcome"].clone()
+    }))
+    .unwrap_or_else(|p| json!(format!("panic: {}", panic_message(&p))));
+    json!({"status": "ok", "model_input": model_in, "obs": obs, "detail": detail, "real_check": real_check})
 }
 
 
